@@ -42,7 +42,7 @@ func buildResTable(c *engine.Ctx) *resTable {
 	add(&resKind{name: "vhost-listener", acquire: []*types.Func{m("pkg/util/vhost", "Muxer", "Listen")}, listener: true})
 	add(&resKind{name: "http-route", acquire: []*types.Func{m("pkg/util/vhost", "HTTPReverseProxy", "Register")}, release: []*types.Func{m("pkg/util/vhost", "HTTPReverseProxy", "UnRegister")}})
 	add(&resKind{name: "http-group-member", acquire: []*types.Func{m("server/group", "HTTPGroupController", "Register")}, release: []*types.Func{m("server/group", "HTTPGroupController", "UnRegister")}})
-	add(&resKind{name: "visitor-entry", acquire: []*types.Func{m("server/visitor", "Manager", "Listen")}, release: []*types.Func{m("server/visitor", "Manager", "CloseListener")}, listener: true})
+	add(&resKind{name: "visitor-entry", acquire: []*types.Func{m("server/visitor", "Manager", "Listen")}, release: []*types.Func{m("server/visitor", "Manager", "CloseListener")}}) // closing the internal listener does not remove the registry entry
 	add(&resKind{name: "nathole-entry", acquire: []*types.Func{m("pkg/nathole", "Controller", "ListenClient")}, release: []*types.Func{m("pkg/nathole", "Controller", "CloseClient")}})
 	add(&resKind{name: "proxy-name", acquire: []*types.Func{m("server/proxy", "Manager", "Add")}, release: []*types.Func{m("server/proxy", "Manager", "Del")}})
 	// OS sockets
